@@ -279,6 +279,20 @@ fn scenarios() -> Vec<Scenario> {
             objs.push(bx(keep));
             Ok(objs)
         }),
+        s!("Command::spawn(rawfd shared by stdout and stderr)", forks, |c| {
+            // `>file 2>&1`: one caller-given descriptor for two streams
+            let f = std::fs::File::create(format!("{}/both.txt", c.dir)).unwrap();
+            use std::os::fd::IntoRawFd;
+            let raw = f.into_raw_fd();
+            c.k.given.borrow_mut().push(raw);
+            let st = Stdio::RawFd(Fd::try_new(raw).unwrap());
+            let r = spawn_with(c, TRUE_BIN, Some(Stdio::Null), Some(st), Some(st));
+            let still = proc_fds().contains(&raw);
+            let keep = if still { Some(RawFds(vec![raw])) } else { None };
+            let mut objs = r?;
+            objs.push(bx(keep));
+            Ok(objs)
+        }),
         s!("Command::spawn(missing binary)", forks, |c| spawn_with(c, MISSING_BIN, Some(Stdio::MakePipe), Some(Stdio::Null), None)),
         s!("EpollDriver", |c| {
             let e = tiny_std::linux::epoll::EpollDriver::create(true)?;
